@@ -49,6 +49,27 @@ def cases(chk):
             b = lead + rb(rng, ln - len(lead))
             out.append(("base58chkenc", "base58chk-encode", [D(b)]))
             out.append(("base58chkdec", "base58chk-decode", [S(btc.base58check_encode(b))]))
+    # nested expressions: the argument of a transform is itself a call (two and three levels; numbers handed on as their minimal encoding)
+    def C(nm, args): return {"k": "call", "name": nm, "args": args}
+    for ln in (0, 1, 20, 32, 33, 64, 100):
+        b = rb(rng, ln)
+        out.append(("ripemd160", "ripemd160", [C("sha256", [D(b)])]))
+        out.append(("sha256", "sha256", [C("sha256", [D(b)])]))
+        out.append(("hash160", "hash160", [C("ripemd160", [D(b)])]))
+        out.append(("ripemd160", "ripemd160", [C("sha256", [C("hash256", [D(b)])])]))
+        out.append(("reverse", "reverse", [C("hash256", [D(b)])]))
+        out.append((None, "len", [C("sha256", [D(b)])]))
+        if 1 <= ln <= 64:
+            out.append(("base58chkdec", "base58chk-decode", [C("base58chkenc", [D(b)])]))
+            out.append(("sha256", "sha256", [C("base58chkdec", [C("base58chkenc", [D(b)])])]))
+        if 2 <= ln <= 40:
+            out.append(("bech32dec", "bech32-decode", [C("bech32enc", [D(b)])]))
+    for x in ("01", "0100", "00", "80", "0080", "ff", "7f", "8000", "ffff00", "01000000", "00000080", "11", "51", "0000", "ff7f", "ffff", "0102030405"):
+        out.append(("hex", "hex", [C("int", [D(bytes.fromhex(x))])]))
+        out.append(("sha256", "sha256", [C("int", [D(bytes.fromhex(x))])]))
+        out.append(("hex", "hex", [C("reverse", [D(bytes.fromhex(x))])]))
+        out.append(("prefix_compact_size", "prefix-compact-size", [C("int", [D(bytes.fromhex(x))])]))
+    out.append(("tagged_hash", "tagged-hash", [S("TapBranch"), C("sha256", [D(rb(rng, 5))]), C("hash256", [D(rb(rng, 7))])]))
     # tagged hashes: long then short in one process (history independence)
     for tag, ln in (("TapLeaf", 300), ("TapLeaf", 5), ("BIP0340/challenge", 96), ("x", 2), ("TapTweak", 64), ("TapTweak", 33), ("a_much_longer_tag_than_usual_0123456789", 40)):
         out.append(("tagged_hash", "tagged-hash", [S(tag), D(rb(rng, ln))]))
@@ -67,6 +88,29 @@ def cases(chk):
         for i in range(len(e)) if not quick else range(0, len(e), 3):
             c = "2" if e[i] != "2" else "3"
             out.append(("base58chkdec", "base58chk-decode", [S(e[:i] + c + e[i + 1:])]))
+        # characters outside the alphabet (0 O I l and punctuation) in place of look-alikes and of ordinary characters: never a digit
+        B58 = "123456789ABCDEFGHJKLMNPQRSTUVWXYZabcdefghijkmnopqrstuvwxyz"
+        for i, ch in enumerate(e):
+            if ch == "1": out.append(("base58chkdec", "base58chk-decode", [S(e[:i] + "0" + e[i + 1:])])); out.append(("base58chkdec", "base58chk-decode", [S(e[:i] + "l" + e[i + 1:])]))
+            if ch == "o": out.append(("base58chkdec", "base58chk-decode", [S(e[:i] + "O" + e[i + 1:])]))
+            if ch == "J": out.append(("base58chkdec", "base58chk-decode", [S(e[:i] + "I" + e[i + 1:])]))
+        for i in (1, len(e) // 2, len(e) - 1):
+            for bad in "0OIl+/_-.@":
+                out.append(("base58chkdec", "base58chk-decode", [S(e[:i] + bad + e[i + 1:])]))
+        # every other character in each of the last six places (the checksum's low bytes) and in the first two
+        for i in list(range(len(e) - 6, len(e))) + [0, 1]:
+            for c in (B58 if not quick else B58[(i * 7) % 5::5]):
+                if c != e[i]:
+                    out.append(("base58chkdec", "base58chk-decode", [S(e[:i] + c + e[i + 1:])]))
+    # a payload that begins with zero bytes and has 1s inside its encoding
+    e0 = btc.base58check_encode(b"\x00\x00\x00" + rb(rng, 8))
+    out.append(("base58chkdec", "base58chk-decode", [S(e0)]))
+    for i, ch in enumerate(e0):
+        if ch == "1": out.append(("base58chkdec", "base58chk-decode", [S(e0[:i] + "0" + e0[i + 1:])]))
+    # bech32 strings at the length limit of 90 characters (other prefixes than the tool's own reach it exactly): 89 / 90 decode, 91 / 92 do not
+    for hrp, ln in (("tb", 49), ("tb", 50), ("tb", 51), ("bcrt", 48), ("bcrt", 49), ("bcrt", 50), ("abcde", 47), ("abcde", 48), ("abcde", 49), ("a", 51), ("a", 52)):
+        for ver in (1, 0):
+            out.append(("bech32dec", "bech32-decode", [S(btc.bech32_encode(hrp, ver, rb(rng, ln)))]))
     for prog, const in ((rb(rng, 20), "bech32"), (rb(rng, 32), "bech32m")):
         addr = btc.bech32_encode("bcrt", 1, prog) if const == "bech32m" else None
         if addr is None:
@@ -206,6 +250,9 @@ def nowarn(text):
 
 
 def argtext(a):
+    if a["k"] == "call":
+        inner = [argtext(x) for x in a["args"]]
+        return "%s(%s)" % (a["name"], inner[0] if len(inner) == 1 else "[" + " ".join(inner) + "]")
     return ("0x" + a["v"]) if a["k"] == "data" else a["v"]
 
 
